@@ -417,6 +417,37 @@ fn main() {
             println!("{:?}", vh::props::c14::hash_of(&seq));
             0
         }
+        Some("gen-stats") => {
+            // vh gen-stats <profile> <n>: flag frequencies of generated cases of one profile (generator diagnostics)
+            use proptest::strategy::{Strategy, ValueTree};
+            let p = vh::sim::generate::Profile::from_name(&args[1]).expect("profile");
+            let n: usize = args[2].parse().unwrap_or(1000);
+            let strat = vh::sim::generate::case_strategy(p, false);
+            let mut runner = proptest::test_runner::TestRunner::deterministic();
+            let mut counts: std::collections::BTreeMap<&'static str, usize> = Default::default();
+            install_panic_hook();
+            for _ in 0..n {
+                let case = strat.new_tree(&mut runner).unwrap().current();
+                let mut sim = vh::sim::Sim::new(&case.cfg, vh::sim::Oracles::default());
+                sim.connect(0);
+                for st in &case.steps {
+                    sim.step(st);
+                }
+                for f in &sim.flags {
+                    *counts.entry(f).or_default() += 1;
+                }
+                if case.cfg.owners {
+                    *counts.entry("cfg.owners").or_default() += 1;
+                }
+                if case.cfg.bundle {
+                    *counts.entry("cfg.bundle").or_default() += 1;
+                }
+            }
+            for (k, v) in counts {
+                println!("{v:>7} {k}");
+            }
+            0
+        }
         Some("list") => {
             for id in vh::props::ids() {
                 println!("{id}");
